@@ -258,6 +258,9 @@ def main():
     shared = set(spec.get("depends_on_fns", []))
     want = own | shared
 
+    import fnmatch
+    patterns = [w for w in want if "*" in w]
+
     def fq_matches(verus_name):
         k = verus_fn_key(verus_name)
         if k is None:
@@ -265,13 +268,21 @@ def main():
         mod, fn, cont = k
         cands = []
         for fq in want:
+            if "*" in fq:
+                continue
             p = fq.split("::")
             if p[0] != mod or p[-1] != fn:
                 continue
             if len(p) == 3 and cont is not None and not cont.startswith("impl&") and p[1] != cont:
                 continue
             cands.append(fq)
-        return cands[0] if len(cands) == 1 else (sorted(cands)[0] if cands else None)
+        if cands:
+            return sorted(cands)[0]
+        canon = "%s::%s::%s" % (mod, cont, fn) if cont and not cont.startswith("impl&") else "%s::%s" % (mod, fn)
+        for pat in patterns:
+            if fnmatch.fnmatch(canon, pat) or fnmatch.fnmatch("%s::%s" % (mod, fn), pat):
+                return canon
+        return None
 
     rlimit = spec.get("rlimit", 10) * (4 if tier == "thorough" else 1)
     threads = int(os.environ.get("VERIF_THREADS", "16"))
@@ -319,11 +330,11 @@ def main():
                 e = idx.at_line(ln)
                 if e is not None:
                     cand = "%s::%s::%s" % (e[2], e[4], e[3]) if e[4] else "%s::%s" % (e[2], e[3])
-                    if cand in want:
+                    alt = "%s::%s" % (e[2], e[3])
+                    if cand in want or any(fnmatch.fnmatch(cand, pt) for pt in patterns):
                         fq = cand
                         break
-                    alt = "%s::%s" % (e[2], e[3])
-                    if alt in want:
+                    if alt in want or any(fnmatch.fnmatch(alt, pt) for pt in patterns):
                         fq = alt
                         break
                     if fq is None:
@@ -342,7 +353,7 @@ def main():
     failures = [f for f in first["failures"] if f["fn"] and not f["fn"].startswith("~")]
     foreign = [f for f in first["failures"] if not f["fn"] or f["fn"].startswith("~")]
 
-    missing = sorted(fq for fq in want if fq not in per_fn and fq not in spec.get("no_query_ok", []))
+    missing = sorted(fq for fq in want if "*" not in fq and fq not in per_fn and fq not in spec.get("no_query_ok", []))
     # functions with trivially empty queries do not appear in the breakdown; they are listed, not counted
     obligations = sorted(per_fn)
     discharged = [fq for fq in obligations if per_fn[fq]["success"]]
